@@ -442,19 +442,30 @@ def substore_streams(tier):
 # Send/Flush and never reads the replies, so an error REPLY goes unnoticed there (findings/c02-redis-subscribe-ignores-reply.md);
 # command failures are outside the quantifier of C02 / C09, so that is recorded as an observation and not demanded here.
 MUTATING = ("unsub", "unsuball")
+# …but a fault in front of a `sub` is still injected now and then (seed C02-6): the subscription is then live in memory and absent from
+# redis — the state in which an UNSUBSCRIBE must still remove it from every lookup. No `reload` follows in such a case (redis and
+# memory differ from then on, which is the recorded observation, not a violation).
+FAULTABLE = MUTATING + ("sub",)
 
 def gen_redis(rng):
     """a history as for the memory store, with `fault` (the next redis command fails) in front of some mutating ops and
     `reload` (a store re-initialised from redis must equal the live one) now and then"""
     ops = gen_history(rng, rng.choice([0.0, 0.3]), nmax=40)
     res = []
+    subfaults = rng.random() < 0.3
+    diverged = False
     for op in ops:
-        if op.split(" ")[0] in MUTATING and rng.random() < 0.15:
+        w = op.split(" ")[0]
+        if w in MUTATING and rng.random() < 0.15:
             res.append("fault")
+        elif w == "sub" and subfaults and rng.random() < 0.2:
+            res.append("fault")
+            diverged = True
         res.append(op)
-        if rng.random() < 0.06:
+        if rng.random() < 0.06 and not diverged:
             res.append("reload")
-    res.append("reload")
+    if not diverged:
+        res.append("reload")
     return res
 
 def hint_redis(ops, impl_out):
@@ -468,7 +479,7 @@ def hint_redis(ops, impl_out):
             armed = True
         elif w in ("new", "reload"):
             armed = False
-        elif w in MUTATING:
+        elif w in FAULTABLE:
             if armed and impl_out is not None and i < len(impl_out) and impl_out[i] == "err":
                 op = "failed " + op
             armed = False
@@ -494,7 +505,7 @@ def predicate_redis(ops, out):
             if o != "same":
                 return f"the store re-initialised from redis differs from the live one: {o[:300]}"
             continue
-        if f[0] in MUTATING:
+        if f[0] in FAULTABLE:
             was_armed, armed = armed, False
             if o == "err":
                 if not was_armed:
